@@ -1809,3 +1809,63 @@ func (c *Ctx) ruleForcedFilter() {
 		c.ob("R-FORCEDFILTER", "checkForGRANDPAForcedChanges:scheduled-case", f.Pos(), false, "no GrandpaScheduledChange case found (anchor changed)")
 	}
 }
+
+// R-RECID: the secp256k1 recovery byte is normalised exactly as the reference does (v >= 27 -> v - 27, nothing else).
+func (c *Ctx) ruleRecoveryID() {
+	const dir = "lib/crypto/secp256k1"
+	c.doc("R-RECID", "RecoverPublicKey / RecoverPublicKeyCompressed: the only write to the recovery byte sig[64] stores sig[64] - 27 and is taken exactly on the edge sig[64] >= 27 (Substrate: `if v > 26 { v - 27 } else { v }`); any other folding (e.g. v % 27) maps invalid recovery ids onto valid ones and recovers a key where the reference rejects the signature")
+	for _, name := range []string{"RecoverPublicKey", "RecoverPublicKeyCompressed"} {
+		f := c.fn(dir, name)
+		if f == nil {
+			continue
+		}
+		sig := ssa.Value(f.Params[1])
+		n := 0
+		eachInstr(f, func(b *ssa.BasicBlock, _ int, in ssa.Instruction) {
+			st, ok := in.(*ssa.Store)
+			if !ok {
+				return
+			}
+			ia, ok := st.Addr.(*ssa.IndexAddr)
+			if !ok || ia.X != sig {
+				return
+			}
+			n++
+			idx, isC := constInt(ia.Index)
+			isRecByte := func(v ssa.Value) bool {
+				u, ok := stripConv(v).(*ssa.UnOp)
+				if !ok || u.Op != token.MUL {
+					return false
+				}
+				ia2, ok := u.X.(*ssa.IndexAddr)
+				if !ok || ia2.X != sig {
+					return false
+				}
+				k, ok := constInt(ia2.Index)
+				return ok && k == 64
+			}
+			okVal := false
+			if bo, ok := st.Val.(*ssa.BinOp); ok && bo.Op == token.SUB && isRecByte(bo.X) {
+				if k, ok := constInt(bo.Y); ok && k == 27 {
+					okVal = true
+				}
+			}
+			okGuard := false
+			for _, fc := range factsAt(b) {
+				subj, op, k, isCmp := cmpWithConst(fc.cond)
+				if !isCmp || !isRecByte(subj) {
+					continue
+				}
+				if !fc.truth {
+					op = negOp(op)
+				}
+				if (op == token.GEQ && k == 27) || (op == token.GTR && k == 26) {
+					okGuard = true
+				}
+			}
+			c.ob("R-RECID", fmt.Sprintf("%s:write-to-signature#%d", name, n), st.Pos(), isC && idx == 64 && okVal && okGuard,
+				name+" rewrites the signature's recovery byte other than by `if v >= 27 { v -= 27 }`: recovery ids the reference rejects (BadV) are folded onto valid ones")
+		})
+		c.ob("R-RECID", name+":normalises-recovery-byte", f.Pos(), n == 1, fmt.Sprintf("%d writes to the signature buffer (exactly one expected: the recovery byte)", n))
+	}
+}
